@@ -22,7 +22,7 @@ META = {
         'R8': 'Sphere::from_four_points: four points equidistant (= radius) from the centre',
         'R10': 'Sphere::contains (the test on which extend leaves the sphere unchanged, and which Plane::intersects_sphere uses) is the containment test at every length scale: '
                'contains(x) <=> r > 0 and |x - c|^2 <= k * r^2 with a constant 1 <= k <= 1 + 1e-6 — a relative tolerance only; an absolute term would make small spheres "contain" far points',
-        'R9': 'Sphere::extend: the new sphere has the point and the antipode of the old sphere on its boundary (radius (r+s)/2, centre on the segment); unchanged when the point is contained',
+        'R9': 'Sphere::extend: the new sphere has the point and the antipode of the old sphere on its boundary (radius (r+s)/2, centre on the segment); unchanged when the point is contained; no division by the radius (defined for the sphere through one point)',
     },
     'explanation': 'Decides the whole statement over the reals: every exported helper of meshless_voronoi::geometry is '
                    'abstractly evaluated (algebraic value numbering over MIR, no execution) on fully symbolic arguments and '
@@ -199,13 +199,35 @@ def r8(ctx, F, rule, sfx):
 
 
 def r9(ctx, F, rule, sfx):
+    from .. import dtab
     body = F.body(G + 'Sphere::extend')
     ip = I.Interp(F, no_inline=[G + 'Sphere::contains'])
     cen, rad = I.sym_vec3('c'), RF.sym('r')
     sph = I.St('geometry::Sphere', 'Sphere', {'center': cen, 'radius': rad})
     x = I.sym_vec3('x')
-    v, _ = ip.call_body(body, [sph, x])
+    nf.DIV_LOG = []
+    try:
+        v, _ = ip.call_body(body, [sph, x])
+        divs = nf.DIV_LOG
+    finally:
+        nf.DIV_LOG = None
     ctx.evaluations += ip.evaluations
+    # no division by the radius: a sphere through a single point has radius 0 and must extend like any other (the normal forms below cancel
+    # common factors, so `(|x-c| / r) * r` would pass for `|x-c|`); dividing by |x-c| is what the construction itself does (x outside => x != c)
+    r_at = nf.sym_atom('r')
+    by_r = []
+    for b_, g_ in divs:
+        num = RF(dict(b_.num)) if hasattr(b_, 'num') else b_
+        if r_at.id in I.atoms_deep(num):
+            nonzero = False
+            for q in g_:
+                for l in dtab.b_leaves(q).values():
+                    if l.op == 'cmp' and {repr(l.args[1]), repr(l.args[2])} == {'r', '0'}:
+                        nonzero = True      # the radius was tested against zero on this path: the arm analysis below decides what each arm computes
+            if not nonzero:
+                by_r.append(short(b_))
+    ctx.check(rule, 'no-division-by-the-radius' + sfx, not by_r, ('divides by %s' % by_r[:2]) if by_r else '%d division(s), none by an expression in the radius' % len(divs),
+              'defined for radius 0 (the sphere through one point)', where(body), key_extra='div-by-radius')
     c_new = I.get_field(v, 'center')
     r_new = as_rf(I.get_field(v, 'radius', 'f64'))
     rc = cases(r_new)
